@@ -344,6 +344,13 @@ OCTET_STRING_decode_ber(const asn_codec_ctx_t *opt_codec_ctx,
 		default:
 			if(sel) {
 				unsigned level = sel->cont_level;
+				/* Position in the chain of the type's own tags */
+				unsigned tagno = level + (tag_mode == 1 ? 0 : 1);
+				if(tagno < td->tags_count) {
+					/* Still under the EXPLICIT tags of the type */
+					expected_tag = td->tags[tagno];
+					break;
+				}
 				if(level < td->all_tags_count) {
 					expected_tag = td->all_tags[level];
 					break;
@@ -360,6 +367,18 @@ OCTET_STRING_decode_ber(const asn_codec_ctx_t *opt_codec_ctx,
 			break;
 		}
 
+
+		if(tlv_tag != expected_tag && sel
+		&& tlv_tag == (ber_tlv_tag_t)((type_variant == ASN_OSUBV_BIT)
+			? (ASN_TAG_CLASS_UNIVERSAL | (3 << 2))
+			: (ASN_TAG_CLASS_UNIVERSAL | (4 << 2)))) {
+			/*
+			 * X.690: 8.7.3.2, 8.6.4, 8.23.6: whatever the tag of
+			 * the string type, the segments of its constructed
+			 * encoding are OCTET STRING (BIT STRING) encodings.
+			 */
+			expected_tag = tlv_tag;
+		}
 
 		if(tlv_tag != expected_tag) {
 			char buf[2][32];
